@@ -44,6 +44,14 @@ Theorem C02_unfragmented : forall steps bs fill cap,
   flatten steps = Ok bs -> 4 <= cap -> fill + len bs + 4 <= cap -> encode_call steps fill cap = Ok (bs, []).
 Proof. exact encode_call_unfragmented. Qed.
 
+(* once every byte of the packet has been emitted the encoder reports Complete (the remaining queue is empty): a
+   packet ending in an empty string / an empty payload is not left "Full" when the buffer fills up right before
+   the trailing zero-length step.  (Refuted on the code before /repo commit 00b5d35, where the engine then treated
+   the fully written packet as unsent; corpus/C02/trailing_empty.txt) *)
+Theorem C02_complete_when_all_written : forall steps fill cap out rest,
+  encode_call steps fill cap = Ok (out, rest) -> flatten steps = Ok out -> rest = [].
+Proof. exact encode_call_complete. Qed.
+
 (* ---------- per packet kind: valid packet -> encoder succeeds, reference decoder returns canon ---------- *)
 
 Theorem C02_Pingreq : forall v r,
@@ -132,4 +140,17 @@ Example C02_example :
                                     ack_up := Some [{| up_name := [97]; up_value := [] |}] |}) = true
   /\ impl_encode_all V5 Pingreq no_resolution = Ok [192; 0] /\ spec_decode V5 [192; 0] = Some (Pingreq, [])
   /\ encode_call [SU8 1; SBytes [2; 3; 4; 5; 6; 7]; SU16 8] 2 8 = Ok ([1; 2; 3; 4; 5; 6], [SBytes [7]; SU16 8]).
+Proof. vm_compute. repeat split; reflexivity. Qed.
+
+(* non-vacuity of C02_complete_when_all_written: PUBLISH "ab" with payload Some [] into buffers of capacity 5; the
+   third call writes the topic bytes, the buffer has less than 4 bytes left, the trailing empty payload step is
+   retired by the drain: three calls complete the packet *)
+Example C02_example_trailing_empty :
+  let p := Publish {| pub_pid := 0; pub_topic := [97; 98]; pub_qos := 0; pub_dup := false; pub_retain := false;
+                      pub_payload := Some []; pub_pfi := None; pub_mei := None; pub_alias := None;
+                      pub_response_topic := None; pub_correlation := None; pub_subids := None;
+                      pub_content_type := None; pub_up := None |} in
+  impl_steps V311 p no_resolution = Ok [SU8 48; SVli 4; SU16 2; SBytes [97; 98]; SBytes []]
+  /\ encode_call [SBytes [97; 98]; SBytes []] 0 5 = Ok ([97; 98], [])
+  /\ (do s <- impl_steps V311 p no_resolution ; encode_seq 3 s [] (5, 0)) = Ok (Some [48; 4; 0; 2; 97; 98]).
 Proof. vm_compute. repeat split; reflexivity. Qed.
